@@ -6,6 +6,14 @@ Tie: translator (Gen/DataTypeNames from ladybug/datatype/*.py) + correspondence:
 `enc (dec v)` against the real `X.from_dict(v).to_dict()` on real `to_dict` outputs (JSON round
 tripped, key-shuffled, optional keys dropped, malformed), text forms and copies.
 Oracle: the property statement on the real classes, for every serialisable class.
+
+Round 3: histories on ONE object (op `history`: assignments, in-place operations, refused operations,
+reads in random order and repeated; after every step the serial-form observables, and equality with a
+fresh object built from the public state), several objects read in one process (op `seq`), slices of
+the stream in fresh interpreters in different orders, rare classes first (op `order`), the array forms
+(op `array`) and the rare strata of the quantifier; the Lean object state machines
+(Model/Serial/Hist.lean) are compared with real Location / collection objects step by step (op `hist`).
+The list of producers and their consumers is at the head of the history section below.
 """
 import contextlib
 import copy
@@ -25,7 +33,8 @@ PROP = 'C07'
 PROOF_MODULES = ['Ladybug.Props.C07']
 GREP_MODULES = ['Ladybug.Model.Codec', 'Ladybug.Model.Serial.Basic', 'Ladybug.Model.Serial.Coll',
                 'Ladybug.Model.Serial.Legend', 'Ladybug.Model.Serial.DesignDay', 'Ladybug.Model.Serial.Wea',
-                'Ladybug.Model.Serial.Csv', 'Ladybug.Proofs.C07Basic', 'Ladybug.Proofs.C07Loc',
+                'Ladybug.Model.Serial.Csv', 'Ladybug.Model.Serial.Hist', 'Ladybug.Proofs.C07Hist',
+                'Ladybug.Proofs.C07Basic', 'Ladybug.Proofs.C07Loc',
                 'Ladybug.Proofs.C07Legend', 'Ladybug.Proofs.C07DesignDay', 'Ladybug.Proofs.C07Wea',
                 'Ladybug.Proofs.C07Csv', 'Ladybug.Model.AP', 'Ladybug.Gen.ApTables',
                 'Ladybug.Gen.DataTypeNames', 'Ladybug.Drv.C07',
@@ -37,7 +46,14 @@ RULE = ('instances are described by plain-data specs (class + constructor argume
         'categorized, 2D/3D), legends, design-day conditions, design days, DDY, Wea (annual / partial), '
         'EPW (asset files), psychrometric charts.  correspondence: model enc(dec v) vs real '
         'from_dict(v).to_dict() on real to_dict output, its key-shuffled / key-dropped / malformed variants; '
-        'oracle: dict+JSON, to_dict fixed point, key order, duplicate/copy, text forms, CSV/JSON/PKL files. '
+        'oracle: dict+JSON, to_dict fixed point, key order, duplicate/copy, text forms, array forms, CSV/JSON/PKL files; '
+        'histories on one object (setters with accepted / refused values incl. zeros and exact bounds, item '
+        'assignment, unit conversion in place, metadata, nested parts; reads in random order, repeated) checked '
+        'after every step against the serial-form observables and a fresh object built from the public state; '
+        'sequences of objects of one class read in one process; slices of the stream in fresh interpreters in '
+        'different orders (leap / wrapping / sub-hourly / refused-first cases first in one of them); strata: time '
+        'zone 0 off the Greenwich meridian, zeros and bounds of every Location number, leap-year arrays and '
+        'partial leap-year Wea, single-element collections. '
         'A case is non-trivial when the implementation returns a value; distinct = distinct (op, input).')
 TRUSTED_BASE = [
     'translators tools/extract/datatype_names.py (class names of the standard data types), ap_tables.py and '
@@ -58,10 +74,17 @@ TRUSTED_BASE = [
     'categorized parameters, continuous non-annual Wea objects (law proved for annual and discontinuous ones), '
     'EPW, PsychrometricChart and the CSV/PKL *file* forms are compared / oracle-checked only, not proved',
     'len(AnalysisPeriod) and its datetimes in the Wea codec come from the C04 model (Model/AP.lean)',
+    'object state machines (Model/Serial/Hist.lean) exist for Location and the data collections; their setters '
+    'validate before assigning (for Location that is the behaviour of fixes/C07_location_setters_refused_assignment'
+    '.patch; on the pinned code a refused assignment that changed the object ends the step-wise comparison of that '
+    'history and is reported by the oracle / recorded finding instead); histories of every other class with setters '
+    '(Color, Header, ColorRange, legend parameters, design-day conditions, DesignDay, DDY, Wea) and read-purity of '
+    'EPW-free lazily computed attributes are checked by the oracle on the real code only; in-place unit conversion is '
+    'compared with the data type\'s own out-of-place conversion (conversion arithmetic is not C07\'s subject)',
 ]
 ASSUMPTIONS = ['object equality is the class\'s own __eq__ where defined; ColorRange, EPW and '
                'PsychrometricChart define none and are compared through their dictionaries']
-LEVEL_TEXT = ('Machine-checked Lean 4 theorems (36) over a codec model of the serial forms: json.loads(json.dumps) '
+LEVEL_TEXT = ('Machine-checked Lean 4 theorems (42) over a codec model of the serial forms: json.loads(json.dumps) '
               'modelled as jsonRT (tuples to lists, integer keys to text); the round-trip law '
               'dec(jsonRT(enc a)) = a is proved for every well-formed DateTime, Date, Time, AnalysisPeriod '
               '(incl. duplicate and token-level text), Location, Color, standard and generic DataType, Header, '
@@ -70,7 +93,11 @@ LEVEL_TEXT = ('Machine-checked Lean 4 theorems (36) over a codec model of the se
               'annual Wea; with the to_dict fixed point and, once for all record decoders, independence of key '
               'order and of unknown keys; the CSV header strings at token level under the stated guard.  '
               'Recorded findings have counterexample theorems (data-type naming, categorized default names, '
-              'discontinuous Wea flag, CSV separators, generic-type text).  The model is compared with the real '
+              'discontinuous Wea flag, CSV separators, generic-type text).  Histories on one object: Location and '
+              'the data collections are object state machines over their public state; for every history of accepted '
+              'and refused assignments and reads the object still reads back / copies equal to itself and answers as a '
+              'fresh object built from its public state, a refused operation changes nothing, reads are pure '
+              '(proved by induction over the history).  The model is compared with the real '
               'from_dict/to_dict and text functions on generated instances on every run; file forms, copies, '
               'EPW and psychrometric charts are checked by the oracle on the real code only.')
 LEVEL_NOTE = ('Trusted: Lean kernel; axioms propext/Classical.choice/Quot.sound only; JSON library behaviour as '
@@ -345,8 +372,10 @@ def build(spec):
             return L['wea'].Wea.from_annual_values(loc, dn, dh, spec.get('timestep', 1),
                                                    bool(spec.get('leap')))
         ts = spec['ap']['args'][6]
-        w = L['wea'].Wea.from_annual_values(loc, [float(i % 800) for i in range(8760 * ts)],
-                                            [float(i % 200) for i in range(8760 * ts)], ts)
+        lp = bool(spec['ap']['args'][7])
+        nh = (8784 if lp else 8760) * ts
+        w = L['wea'].Wea.from_annual_values(loc, [float(i % 800) for i in range(nh)],
+                                            [float(i % 200) for i in range(nh)], ts, lp)
         return w.filter_by_analysis_period(build(spec['ap']))
     if c == 'EPW':
         return L['epw'].EPW(os.path.join(core.REPO, 'tests', 'assets', 'epw', spec['file']))
@@ -494,7 +523,7 @@ def _describe(x):
 UNCONSTRUCTIBLE = []
 
 
-def check_case(op, inp):
+def _check_plain(op, inp):
     """op = serial form; inp = {'spec': ..., 'seed': int}."""
     import random
     spec = inp['spec']
@@ -550,9 +579,24 @@ def check_case(op, inp):
         return None
     if op == 'pickle':
         return attempt('pickle', lambda: pickle.loads(pickle.dumps(x)))
+    if op == 'array':
+        # the array form (month, day, hour, minute[, 1]) that the dictionaries of discontinuous collections,
+        # Wea objects and sky conditions embed; it must read back on its own, also after JSON
+        arr = x.to_array()
+        r = attempt('array', lambda: type(x).from_array(json.loads(json.dumps(arr))), leap=bool(spec['args'][-1])
+                    if spec['cls'] != 'Time' else False)
+        if r:
+            return r
+        return attempt('array_plain', lambda: type(x).from_array(arr))
     if op == 'text':
         L = _imp()
         c = spec['cls']
+        if c == 'DateTime':     # str() is what the CSV files carry; the reader is told the year kind
+            return attempt('text', lambda: type(x).from_date_time_string(str(x), x.leap_year))
+        if c == 'Date':
+            return attempt('text', lambda: type(x).from_date_string(str(x), x.leap_year))
+        if c == 'Time':
+            return attempt('text', lambda: type(x).from_time_string(str(x)))
         if c == 'AnalysisPeriod':
             return attempt('text', lambda: type(x).from_string(str(x)))
         if c == 'DataType':
@@ -625,6 +669,593 @@ def _meta_kind(md):
         if any(s in v or s in k for s in (',', ' | ', ': ', '\n')):
             return 'separator'
     return 'strings'
+
+
+# ---------------------------------------------------------------------------------------------
+# histories on ONE object (round 3): setters, in-place operations, refused operations, repeated
+# reads in random order; every step is followed by the observables of the property.
+#
+# The *shadow* of a history is a plain-data spec: the public state the user has established
+# (initial constructor arguments, then every ACCEPTED assignment).  It has no hidden slots: that is
+# the specification.  After every step the object must (1) read back from its dictionary / copy equal
+# to itself, write the same dictionary again, and (2) be equal to - and write the same dictionary
+# as - a fresh object built from the shadow.  An operation the code refuses (raises) leaves the
+# shadow, and therefore every observable, as before.
+#
+# Producers and their consumers (every consumer is exercised by the correspondence or the oracle;
+# a consistent change of a producer and ONE consumer is caught by the others):
+#   DateTime.to_array/from_array   <- HourlyDiscontinuous(+Immutable).to_dict/from_dict, Wea.to_dict/from_dict
+#                                     (non-annual, leap and non-leap), op `array` itself
+#   Date.to_array/from_array       <- _SkyCondition/ASHRAEClearSky/ASHRAETau dict forms, DesignDay, DDY, op `array`
+#   Time.to_array/from_array       <- op `array`
+#   str(DateTime)/str(Date)        <- datautil CSV files (datetime_strings), op `text` (from_*_string)
+#   AnalysisPeriod dict / text     <- Header, every collection, CSV files (from_string), Wea header, psych chart
+#   Location dict                  <- DesignDay, DDY, Wea, EPW; Location.to_idf/from_idf (op text)
+#   DataType dict / text           <- Header -> collections -> Wea / EPW / psych chart; Header CSV strings
+#   Header dict / CSV strings      <- ten collection classes, datautil csv/json/pkl files
+#   Color dict                     <- ColorRange, LegendParameters(+Categorized), Legend
+#   LegendParameters dict          <- Legend, PsychrometricChart
+#   collection dict                <- datautil json files, PsychrometricChart, EPW
+#   __copy__/duplicate of a part   <- duplicate of every container (Header in collections, Location in
+#                                     DesignDay/DDY/Wea, conditions in DesignDay, parameters in Legend)
+
+_ARGIDX = {
+    'Location': {'city': 0, 'state': 1, 'country': 2, 'latitude': 3, 'longitude': 4, 'time_zone': 5,
+                 'elevation': 6, 'station_id': 7, 'source': 8},
+    'Color': {'r': 0, 'g': 1, 'b': 2, 'a': 3},
+    'DryBulbCondition': {'dry_bulb_max': 0, 'dry_bulb_range': 1},
+    'HumidityCondition': {'humidity_type': 0, 'humidity_value': 1, 'barometric_pressure': 2, 'rain': 3,
+                          'snow_on_ground': 4},
+    'WindCondition': {'wind_speed': 0, 'wind_direction': 1},
+}
+_ARGDEF = {
+    'Location': [None, None, None, 0, 0, None, 0, None, None],
+    'Color': [0, 0, 0, 255],
+    'DryBulbCondition': [None, None, 'DefaultMultipliers', ''],
+    'HumidityCondition': [None, None, 101325, False, False, '', ''],
+    'WindCondition': [None, 0],
+}
+_SKY = {
+    'ASHRAEClearSky': ({'clearness': 0, 'daylight_savings': 1}, [1, False]),
+    'ASHRAETau': ({'tau_b': 0, 'tau_d': 1, 'use_2017': 2, 'daylight_savings': 3}, [None, None, False, False]),
+    'SkyCondition': ({'daylight_savings': 0}, [False, '', '']),
+}
+_BOOL_ATTRS = ('rain', 'snow_on_ground', 'daylight_savings', 'use_2017', 'include_larger_smaller')
+_SUB = {      # attribute of a container -> key of the part's spec
+    'DesignDay': {'location': 'location', 'dry_bulb_condition': 'db', 'humidity_condition': 'hum',
+                  'wind_condition': 'wind', 'sky_condition': 'sky'},
+    'DDY': {'location': 'location'},
+    'Wea': {'location': 'location'},
+    'Legend': {'legend_parameters': 'lp'},
+}
+_LP_KEYS = ('min', 'max', 'segment_count', 'colors', 'title', 'continuous_legend', 'decimal_count',
+            'include_larger_smaller', 'vertical', 'font', 'ordinal_dictionary', 'user_data')
+_LPC_KEYS = {'domain': 'domain', 'colors': 'colors', 'category_names': 'names', 'title': 'title',
+             'continuous_colors': 'continuous_colors', 'continuous_legend': 'continuous_legend',
+             'decimal_count': 'decimal_count', 'include_larger_smaller': 'include_larger_smaller',
+             'vertical': 'vertical', 'font': 'font'}
+
+
+def _realize(v):
+    """Plain data of an operation argument -> the Python value handed to the real code."""
+    if isinstance(v, dict):
+        if 'cls' in v:
+            return build(v)
+        if 'colors' in v and len(v) == 1:
+            L = _imp()
+            return None if v['colors'] is None else [L['col'].Color(*c) for c in v['colors']]
+        if 'pairs' in v:
+            return {(int(k) if v.get('int_keys') else k): x for k, x in v['pairs']}
+        if 'specs' in v:
+            return [build(s) for s in v['specs']]
+        if 'plain' in v:
+            return copy.deepcopy(v['plain'])
+    return copy.deepcopy(v)
+
+
+def _pad(spec):
+    a = list(spec.get('args') or [])
+    d = _ARGDEF[spec['cls']] if spec['cls'] != 'SkyCondition' else _SKY[spec['kind']][1]
+    return a + d[len(a):]
+
+
+def shadow_init(spec):
+    """Resolve what the constructor resolves from the other public arguments (no hidden state)."""
+    s = copy.deepcopy(spec)
+    c = s['cls']
+    if c == 'Location':
+        a = _pad(s)
+        if a[5] is None:
+            a[5] = round(float(a[4] or 0) / 15)
+        s['args'] = a
+    elif c in _ARGDEF or c == 'SkyCondition':
+        s['args'] = _pad(s)
+    for k in _SUB.get(c, {}).values():
+        if isinstance(s.get(k), dict):
+            s[k] = shadow_init(s[k])
+    if c == 'DDY':
+        s['days'] = [shadow_init(d) for d in s['days']]
+    return s
+
+
+def shadow_apply(spec, op):
+    """The spec after an ACCEPTED operation (pure; the model of the history)."""
+    s = copy.deepcopy(spec)
+    c = s['cls']
+    k = op['k']
+    if k == 'read':
+        return s
+    if k == 'set' and '.' in op['attr']:
+        head, rest = op['attr'].split('.', 1)
+        if c == 'Collection' and head == 'header':
+            s['header'] = shadow_apply(s['header'], dict(op, attr=rest))
+            return s
+        key = _SUB[c][head]
+        s[key] = shadow_apply(s[key], dict(op, attr=rest))
+        if c == 'DDY':           # the days share the DDY's location object
+            for d in s['days']:
+                d['location'] = copy.deepcopy(s[key])
+        return s
+    v = op.get('v')
+    if k == 'set':
+        a = op['attr']
+        if a in _BOOL_ATTRS and not isinstance(v, dict):
+            v = bool(v)
+        if c == 'Location':
+            if a == 'time_zone' and v is None:
+                v = round(float(s['args'][4] or 0) / 15)
+            s['args'][_ARGIDX[c][a]] = v
+        elif c == 'Color':
+            s['args'][_ARGIDX[c][a]] = int(v)
+        elif c in _ARGIDX:
+            s['args'][_ARGIDX[c][a]] = v
+        elif c == 'SkyCondition':
+            if a == 'date':
+                s['date'] = list(v['args'])
+            else:
+                s['args'][_SKY[s['kind']][0][a]] = v
+        elif c == 'Header':
+            s['meta'] = None if v is None else dict(v['plain'])
+        elif c == 'Collection':
+            s['values'] = list(v['plain'])
+        elif c == 'ColorRange':
+            if a == 'colors':
+                s['colors'] = v['colors']
+            else:
+                s['domain'] = None if v is None else list(v['plain'])
+        elif c == 'LegendParameters':
+            if a == 'colors':
+                s['colors'] = v['colors']
+            elif a == 'ordinal_dictionary':
+                s['ordinal'] = None if v is None else [list(p) for p in v['pairs']]
+            elif a == 'user_data':
+                s['user_data'] = None if v is None else dict(v['plain'])
+            else:
+                s[a] = v
+        elif c == 'LegendParametersCategorized':
+            if a == 'colors':
+                s['colors'] = v['colors']
+            elif a in ('domain', 'category_names'):
+                s[_LPC_KEYS[a]] = None if v is None else list(v['plain'])
+            else:
+                s[_LPC_KEYS[a]] = v
+        elif c == 'DesignDay':
+            if a in _SUB[c]:
+                s[_SUB[c][a]] = shadow_init(v)
+            else:
+                s[a] = v
+        elif c == 'DDY':
+            if a == 'location':
+                s['location'] = shadow_init(v)
+                for d in s['days']:
+                    d['location'] = copy.deepcopy(s['location'])
+            else:
+                s['days'] = [shadow_init(d) for d in v['specs']]
+                for d in s['days']:
+                    d['location'] = copy.deepcopy(s['location'])
+        elif c == 'Wea':
+            s['location'] = shadow_init(v)
+        else:
+            raise ValueError('no shadow for %s.%s' % (c, a))
+        return s
+    if k == 'setitem':
+        s['values'][op['i']] = v
+        return s
+    if k == 'convert':
+        s['values'] = list(op['_values'])
+        s['header']['unit'] = op['_unit']
+        return s
+    raise ValueError('unknown history op %r' % (k,))
+
+
+def _target(x, path):
+    for p in path:
+        x = getattr(x, p)
+    return x
+
+
+def real_apply(x, op):
+    """Perform the operation on the real object (may raise: refused)."""
+    k = op['k']
+    if k == 'set':
+        path = op['attr'].split('.')
+        setattr(_target(x, path[:-1]), path[-1], _realize(op.get('v')))
+    elif k == 'setitem':
+        x[op['i']] = op['v']
+    elif k == 'convert':
+        if op['name'] == 'convert_to_unit':
+            x.convert_to_unit(op['unit'])
+        else:
+            getattr(x, op['name'])()
+    elif k == 'read':
+        _read(x, op['what'])
+    else:
+        raise ValueError('unknown history op %r' % (k,))
+
+
+READS = {
+    'DateTime': ['hoy', 'moy', 'doy', 'int_hoy', 'float_hour', 'date', 'time', 'leap_year', 'to_array', '__str__'],
+    'Date': ['doy', 'leap_year', 'to_array', '__str__'],
+    'AnalysisPeriod': ['datetimes', 'hoys', 'moys', 'hoys_int', 'doys_int', 'months_int', 'months_per_hour',
+                       'is_annual', 'is_reversed', 'is_leap_year', '__len__', '__str__', 'st_time', 'end_time',
+                       'minute_intervals'],
+    'Location': ['meridian', 'is_default', 'to_idf', '__repr__', '__hash__'],
+    'DataType': ['name', 'units', 'si_units', 'ip_units', 'min', 'max', 'abbreviation', 'unit_descr',
+                 'point_in_time', 'cumulative', 'to_string', '__hash__'],
+    'Header': ['to_tuple', 'to_csv_strings', '__repr__', 'metadata', 'unit', 'data_type', 'analysis_period'],
+    'Collection': ['values', 'datetimes', 'bounds', 'min', 'max', 'average', 'median', 'total',
+                   'datetime_strings', 'validated_a_period', 'is_mutable', 'is_continuous', '__len__',
+                   '__repr__', 'to_immutable', 'to_mutable', 'get_aligned_collection', 'timestep_text',
+                   'moys_dict', 'to_ip', 'to_si', 'average_monthly', 'group_by_month'],
+    'Color': ['to_hex', '__repr__', '__hash__'],
+    'ColorRange': ['colors', 'domain', 'continuous_colors', '__repr__', '__len__'],
+    'LegendParameters': ['is_segment_count_default', 'are_colors_default', 'is_title_default', '__repr__',
+                         'properties_3d', 'properties_2d', 'colors', 'ordinal_dictionary'],
+    'LegendParametersCategorized': ['category_names', 'min', 'max', 'segment_count', '__repr__'],
+    'Legend': ['segment_text', 'segment_numbers', 'color_range', 'value_colors', 'segment_colors', 'title',
+               'segment_length', 'is_min_default', 'is_max_default', 'legend_parameters', '__repr__'],
+    'DryBulbCondition': ['hourly_values', '__repr__'],
+    'HumidityCondition': ['hourly_pressure', '__repr__'],
+    'WindCondition': ['hourly_values', '__repr__'],
+    'SkyCondition': ['hourly_sky_cover', '__repr__', 'date'],
+    'DesignDay': ['analysis_period', 'hourly_dry_bulb', 'hourly_wind_speed', 'hourly_barometric_pressure',
+                  'to_idf', '__repr__', 'hourly_datetimes'],
+    'DDY': ['to_file_string', '__repr__', 'design_days'],
+    'Wea': ['header', 'datetimes', 'hoys', 'analysis_period', 'is_annual', 'is_continuous', 'is_leap_year',
+            'timestep', 'direct_normal_irradiance', 'diffuse_horizontal_irradiance', 'metadata',
+            'enforce_on_hour'],
+    'EPW': ['location', 'is_leap_year', 'is_data_loaded', 'is_header_loaded', 'header', 'years',
+            'dry_bulb_temperature', 'metadata', 'annual_heating_design_day_996', 'ashrae_climate_zone',
+            'monthly_ground_temperature', 'daylight_savings_start', 'comments_1', 'is_ip'],
+    'PsychrometricChart': ['chart_border', 'temperature_lines', 'rh_lines', 'enthalpy_lines', 'wb_lines',
+                           'hr_lines', 'legend', 'colored_mesh', 'container', 'time_matrix', 'hour_values',
+                           'temperature_labels', 'title_text', 'x_axis_text', 'data_points', 'legend_parameters'],
+}
+
+
+def _read(x, what):
+    """Touch one public observable (return value ignored: reads are checked through the serial forms)."""
+    try:
+        if what == '__str__':
+            return str(x)
+        if what == '__repr__':
+            return repr(x)
+        if what == '__len__':
+            return len(x)
+        if what == '__hash__':
+            return hash(x)
+        v = getattr(x, what)
+        if callable(v):
+            v = v()
+        if hasattr(v, '__iter__') and not isinstance(v, (str, dict, list, tuple)):
+            v = list(v)
+        return v
+    except Exception:
+        return None      # an observable that is not defined for this instance is not a serial form
+
+
+def _obs(spec, x, rc):
+    """The observables the property speaks about, on the history object: None | (outcome, detail)."""
+    try:
+        d = json.loads(json.dumps(x.to_dict()))
+    except Exception as e:
+        return ('to_dict_raises', '%s: %s' % (type(e).__name__, str(e)[:160])), None
+    try:
+        back = rc.from_dict(copy.deepcopy(d))
+    except Exception as e:
+        return ('rt_raises', '%s: %s' % (type(e).__name__, str(e)[:160])), d
+    if not same(spec, x, back):
+        return ('rt_unequal', _describe(back)), d
+    try:
+        if json.loads(json.dumps(back.to_dict())) != d:
+            return ('fixed_point', jdump(back.to_dict())[:300]), d
+    except Exception as e:
+        return ('fixed_point', 'raises %s' % type(e).__name__), d
+    if hasattr(x, 'duplicate'):
+        try:
+            dup = x.duplicate()
+        except Exception as e:
+            return ('dup_raises', '%s: %s' % (type(e).__name__, str(e)[:160])), d
+        if not same(spec, x, dup):
+            return ('dup_unequal', _describe(dup)), d
+    return None, d
+
+
+# classes whose fresh twin is compared after every step (cheap to build), at the end only, or never
+# (ColorRange: the 2-stop re-mapping makes the stored domain a function of the colours at the time of
+# the assignment; its public state is what `duplicate()` reads, which is compared)
+_FRESH_END_ONLY = ('Wea',)
+_FRESH_NEVER = ('ColorRange', 'EPW', 'PsychrometricChart')
+
+
+def run_history(spec, ops):
+    """-> None | dict(step, outcome, detail, attr).  Pure function of (spec, ops)."""
+    x = build(spec)
+    rc = reader_class(spec, x)
+    c = spec['cls']
+    sh = shadow_init(spec)
+    bad, d_prev = _obs(spec, x, rc)
+    if bad:
+        return None      # the fresh object itself does not round trip: the plain ops report that
+    for i, op in enumerate(ops):
+        attr = op.get('attr') or op.get('name') or op.get('what') or op['k']
+        refused = False
+        try:
+            if op['k'] == 'convert':
+                # expected result of the conversion, from a fresh twin (out of place)
+                tw = build(sh)
+                if op['name'] == 'convert_to_unit':
+                    nv = tw.header.data_type.to_unit(list(tw.values), op['unit'], tw.header.unit)
+                    nu = op['unit']
+                elif op['name'] == 'convert_to_ip':
+                    nv, nu = tw.header.data_type.to_ip(list(tw.values), tw.header.unit)
+                else:
+                    nv, nu = tw.header.data_type.to_si(list(tw.values), tw.header.unit)
+                op = dict(op, _values=list(nv), _unit=nu)
+        except Exception:
+            pass             # the conversion is not defined: the real call below must refuse too
+        try:
+            real_apply(x, op)
+        except Exception:
+            refused = True
+        if not refused:
+            if op['k'] == 'convert' and '_values' not in op:
+                return None  # accepted a conversion the data type refuses out of place: not a C07 matter
+            try:
+                sh = shadow_apply(sh, op)
+            except Exception:
+                return None
+        bad, d = _obs(spec, x, rc)
+        kind = 'refused' if refused else ('read' if op['k'] == 'read' else 'accepted')
+        if bad:
+            return {'step': i, 'outcome': bad[0], 'detail': bad[1], 'attr': attr, 'after': kind}
+        if (refused or op['k'] == 'read') and d != d_prev:
+            return {'step': i, 'outcome': 'changed_by_' + kind, 'attr': attr, 'after': kind,
+                    'detail': 'dictionary before: %s | after: %s' % (jdump(d_prev)[:200], jdump(d)[:200])}
+        d_prev = d
+        last = i == len(ops) - 1
+        if c in _FRESH_NEVER or (c in _FRESH_END_ONLY and not last):
+            continue
+        try:
+            y = build(sh)
+        except Exception:
+            return None      # the constructor refuses what the setter accepted: no fresh twin to compare with
+        try:
+            dy = json.loads(json.dumps(y.to_dict()))
+        except Exception:
+            return None
+        if dy != d or not same(spec, x, y):
+            return {'step': i, 'outcome': 'differs_from_fresh', 'attr': attr, 'after': kind,
+                    'detail': 'object after the history: %s | fresh object from the same public state: %s'
+                    % (jdump(d)[:220], jdump(dy)[:220])}
+    return None
+
+
+def _hist_target(spec, attr):
+    """'Class.attribute' of the innermost object an operation addresses (for failure signatures)."""
+    c = spec['cls']
+    while '.' in attr:
+        head, attr = attr.split('.', 1)
+        if c == 'Collection' and head == 'header':
+            spec = spec['header']
+        else:
+            spec = spec.get(_SUB.get(c, {}).get(head)) or {'cls': '?'}
+        c = spec['cls']
+    return '%s.%s' % (c, attr)
+
+
+_KNOWN = None
+
+
+def _known_hit(sig):
+    global _KNOWN
+    if _KNOWN is None:
+        try:
+            _KNOWN = core.load_known(PROP)
+        except Exception:
+            _KNOWN = []
+    for k in _KNOWN:
+        if core.matches(sig, k):
+            return k['id']
+    return None
+
+
+def _hist_sig(spec, inp, r):
+    tg = _hist_target(spec, r['attr'])
+    return _sig(spec, 'history', root=root_of('dict_json', inp), outcome=r['outcome'], attr=r['attr'],
+                after=r['after'], target=tg, tclass=tg.split('.')[0])
+
+
+def _shrink_history(spec, ops, r):
+    """Shortest prefix, then drop earlier operations while the same outcome at the same attribute remains."""
+    ops = ops[:r['step'] + 1]
+    j = 0
+    budget = 40
+    while j < len(ops) - 1 and budget > 0:
+        budget -= 1
+        cand = ops[:j] + ops[j + 1:]
+        try:
+            r2 = run_history(spec, cand)
+        except Exception:
+            r2 = None
+        if r2 is not None and r2['outcome'] == r['outcome'] and r2['attr'] == r['attr']:
+            ops = cand[:r2['step'] + 1]
+            r = r2
+        else:
+            j += 1
+    return ops, r
+
+
+def _check_history(op, inp):
+    spec = inp['spec']
+    try:
+        build(spec)
+    except Exception:
+        UNCONSTRUCTIBLE.append(spec['cls'])
+        return None
+    ops = list(inp['ops'])
+    first_known = None
+    r = None
+    for _ in range(len(ops) + 1):
+        r = run_history(spec, ops)
+        if r is None:
+            break
+        if _known_hit(_hist_sig(spec, inp, r)) is None:
+            break
+        # a recorded defect: remember it, take the operation out and look at the rest of the history
+        if first_known is None:
+            first_known = (list(ops), r)
+        ops = ops[:r['step']] + ops[r['step'] + 1:]
+    if r is None:
+        if first_known is None:
+            return None
+        ops, r = first_known
+        ops = ops[:r['step'] + 1]          # a recorded defect: the prefix is replay enough
+    else:
+        ops, r = _shrink_history(spec, ops, r)
+    if ops != inp['ops']:
+        inp['shrunk_from'] = len(inp['ops'])
+        inp['ops'] = ops
+    return {'required': 'after every operation of the history the object reads back / copies equal, writes the '
+                        'same dictionary, and equals a fresh object built from the public state; a refused '
+                        'operation or a read changes nothing',
+            'observed': 'step %d (%s, %s): %s: %s' % (r['step'], r['attr'], r['after'], r['outcome'], r['detail']),
+            'sig': _hist_sig(spec, inp, r)}
+
+
+def _check_seq(op, inp):
+    """Several objects written and read in ONE process, in the given order: reading one must not
+    change what reading another gives (class-level / module-level memo)."""
+    specs = inp['specs']
+    objs = []
+    for s in specs:
+        try:
+            objs.append(build(s))
+        except Exception:
+            UNCONSTRUCTIBLE.append(s['cls'])
+            return None
+    rcs = [reader_class(s, x) for s, x in zip(specs, objs)]
+    ds = [json.dumps(x.to_dict()) for x in objs]
+    order = list(inp.get('order') or range(len(specs)))
+    backs = {}
+    for rnd, idxs in enumerate((order, list(reversed(order)))):
+        for i in idxs:
+            try:
+                backs[i] = rcs[i].from_dict(json.loads(ds[i]))
+            except Exception as e:
+                return {'required': _describe(objs[i]), 'observed': 'raises %s: %s' % (type(e).__name__, str(e)[:160]),
+                        'sig': _sig(specs[i], 'seq', root='none', outcome='raises', index=i)}
+        # compare only after ALL reads of the round: a later read must not reach back into an earlier object
+        for i in idxs:
+            if not same(specs[i], objs[i], backs[i]) or \
+                    json.loads(json.dumps(backs[i].to_dict())) != json.loads(ds[i]):
+                return {'required': _describe(objs[i]), 'observed': 'read no. %d of round %d gives %s' % (
+                    idxs.index(i), rnd, _describe(backs[i])),
+                    'sig': _sig(specs[i], 'seq', root='none', outcome='unequal', index=i)}
+        for i, x in enumerate(objs):          # ... nor change the originals
+            if json.dumps(x.to_dict()) != ds[i]:
+                return {'required': ds[i][:300], 'observed': jdump(x.to_dict())[:300],
+                        'sig': _sig(specs[i], 'seq', root='none', outcome='original_changed', index=i)}
+    return None
+
+
+# --- process-order independence ----------------------------------------------------------------
+
+def _child_main():
+    """Runs in a fresh interpreter: evaluate the cases of stdin in the given order."""
+    import sys
+    sys.path.insert(0, core.REPO)
+    data = json.loads(sys.stdin.read())
+    out = []
+    with contextlib.redirect_stdout(io.StringIO()):
+        for op, inp in data['order']:
+            try:
+                r = check_case(op, inp)
+            except Exception as e:
+                r = {'required': 'oracle evaluates', 'observed': 'exception %s: %s' % (type(e).__name__, e),
+                     'sig': {'exception': type(e).__name__}}
+            out.append(r)
+    sys.stdout.write(json.dumps({'results': out, 'order': data['order']}, default=str))
+
+
+def _spawn_order(order):
+    import subprocess
+    import sys
+    code = ('import sys; sys.path.insert(0, %r); from harness.props import c07; c07._child_main()' % core.ROOT)
+    return subprocess.Popen([sys.executable, '-c', code], stdin=subprocess.PIPE, stdout=subprocess.PIPE,
+                            stderr=subprocess.PIPE, cwd=core.ROOT, env=dict(os.environ, LADYBUG_REPO=core.REPO))
+
+
+def _run_orders(orders, timeout=600):
+    """Run each order in its own fresh interpreter (in parallel, at most 4)."""
+    procs = []
+    for o in orders:
+        p = _spawn_order(o)
+        procs.append(p)
+    outs = []
+    for p, o in zip(procs, orders):
+        try:
+            so, se = p.communicate(json.dumps({'order': o}).encode('utf-8'), timeout=timeout)
+            outs.append(json.loads(so.decode('utf-8'))['results'])
+        except Exception as e:
+            try:
+                p.kill()
+            except Exception:
+                pass
+            outs.append([{'required': 'child process evaluates the order', 'observed': 'child failed: %s' % e,
+                          'sig': {'exception': 'child'}}] + [None] * (len(o) - 1))
+    return outs
+
+
+def _first_failure(results):
+    for j, r in enumerate(results):
+        if r:
+            return j, r
+    return None, None
+
+
+def _check_order(op, inp):
+    """inp = {'order': [[op, inp], ...]}: evaluated in a FRESH interpreter, in this order; the failure
+    of the first failing case is returned (required/observed of that case, sig extended by `order`)."""
+    order = [list(c) for c in inp['order']]
+    res = _run_orders([order])[0]
+    j, r = _first_failure(res)
+    if r is None:
+        return None
+    sig = dict(r.get('sig') or {})
+    sig['in_order'] = True
+    return {'required': r.get('required'), 'observed': 'case %d (%s) of the order: %s' % (j, order[j][0], r.get('observed')),
+            'sig': sig}
+
+
+def check_case(op, inp):
+    if op == 'history':
+        return _check_history(op, inp)
+    if op == 'seq':
+        return _check_seq(op, inp)
+    if op == 'order':
+        return _check_order(op, inp)
+    return _check_plain(op, inp)
 
 
 replay = check_case
@@ -985,6 +1616,197 @@ def gen_psych(rng):
             'tmax': rng.choice([50, 45]), 'lp': None if rng.random() < 0.5 else gen_legendpar(rng, rich=False)}
 
 
+# --- generators of histories -----------------------------------------------------------------------
+
+def _plain(v):
+    return {'plain': v}
+
+
+def _hist_pool(rng, spec):
+    """(attr, [accepted-looking values], [values the validation code refuses]) for the class of `spec`;
+    built from the assertions of the setters in /repo (zero / falsy values and exact bounds included)."""
+    c = spec['cls']
+    cols = lambda n: {'colors': [gen_color(rng) for _ in range(n)]}
+    if c == 'Location':
+        return [('latitude', [0, 0.0, 90, -90.0, 45.5, rng.uniform(-90, 90)], [90.5, -91, 'abc', 1e9]),
+                ('longitude', [0, 180, -180.0, 7.5, -22.5, rng.uniform(-180, 180)], [180.5, -181, 'x']),
+                ('time_zone', [0, 0.0, -12, 14, 5.75, None, float(rng.randrange(-12, 15))], [14.5, -13, 'tz', 99]),
+                ('elevation', [0, 0.0, -5.5, 8848, gen_float(rng)], ['high', None]),
+                ('city', ['Lisbon', 'x'], []), ('station_id', ['085360', None], []), ('source', ['IWEC', None], [])]
+    if c == 'Color':
+        return [(a, [0, 255, rng.randrange(256)], [256, -1, 'red', None]) for a in 'rgba']
+    if c == 'Header':
+        return [('metadata', [None, _plain({}), _plain({'city': 'Boston'}), _plain({'Zone': 'A', 'System': 'VAV_1'})],
+                 [_plain([1, 2]), 'text', 5])]
+    if c == 'Collection':
+        n = len(spec['values'])
+        return [('values', [_plain(gen_values(rng, n)), _plain([0] * n), _plain([0.0] * n)],
+                 [_plain(gen_values(rng, n + 1)), _plain(gen_values(rng, n - 1)), _plain([]), 'abc', 5, None]),
+                ('header.metadata', [None, _plain({}), _plain({'city': 'Boston'})], [_plain([1]), 'text'])]
+    if c == 'ColorRange':
+        k = len(spec['colors']) if spec.get('colors') else 10
+        return [('colors', [cols(k), cols(k + 2), {'colors': None}], ['abc', 5, _plain([1, 2])]),
+                ('domain', [None, _plain([0, 1]), _plain([gen_float(rng) for _ in range(2)]), _plain([0, 0])],
+                 ['abc', _plain(['a', 'b']), _plain([float(i) for i in range(k + 3)])])]
+    if c == 'LegendParameters':
+        return [('min', [None, 0, 0.0, -3, gen_float(rng)], ['lo', 1e308 if spec.get('max') is not None else 'x']),
+                ('max', [None, 0, 0.0, 3.5, gen_float(rng)], ['hi', -1e308 if spec.get('min') is not None else 'x']),
+                ('segment_count', [None, 1, 2, 11], [0, -1, 2.5, 'n']),
+                ('colors', [{'colors': None}, cols(2), cols(5)], [cols(1), 'abc', 7]),
+                ('title', [None, '', 'C'], [5, _plain(['t'])]),
+                ('continuous_legend', [None, True, False], [0, 'yes']),
+                ('decimal_count', [None, 0, 3], [1.5, 'n']),
+                ('include_larger_smaller', [True, False, 0, None], []),
+                ('vertical', [None, True, False], [0, 'v']),
+                ('font', [None, 'Courier'], [5]),
+                ('ordinal_dictionary', [None, {'pairs': [['0', 'no'], ['1', 'yes']], 'int_keys': True}],
+                 [{'pairs': [['a', 'no']], 'int_keys': False}, 'abc']),
+                ('user_data', [None, _plain({'k': 'v'})], ['abc', _plain([1])])]
+    if c == 'LegendParametersCategorized':
+        k = len(spec['domain'])
+        return [('domain', [_plain(sorted(gen_float(rng) for _ in range(k))), _plain([0.0] * k)],
+                 [_plain([0.0] * (k + 1)), _plain([]), 'abc', 5]),
+                ('colors', [cols(k + 1)], [cols(k), cols(k + 2), 'abc', 5]),
+                ('category_names', [_plain(['n%d' % i for i in range(k + 1)])],
+                 [_plain(['n%d' % i for i in range(k)]), _plain(['n%d' % i for i in range(k + 2)]), 5]),
+                ('title', [None, 'T'], [5]), ('vertical', [None, True, False], ['v']),
+                ('continuous_colors', [None, True, False], [0, 'c']),
+                ('decimal_count', [None, 0, 3], [1.5])]
+    if c == 'DryBulbCondition':
+        return [('dry_bulb_max', [0, 0.0, -20.5, 35], ['hot', None]),
+                ('dry_bulb_range', [0, 0.0, 8.5], [-0.5, -1, 'wide', None])]
+    if c == 'HumidityCondition':
+        return [('humidity_type', ['Wetbulb', 'Dewpoint', 'HumidityRatio', 'Enthalpy'], ['Foo', '', None, 3]),
+                ('humidity_value', [0, 0.0, 20.5], ['wet', None]),
+                ('barometric_pressure', [0, 101325, 95000.5], ['p', None]),
+                ('rain', [True, False, 0, 1, None], []), ('snow_on_ground', [True, False, 0, ''], [])]
+    if c == 'WindCondition':
+        return [('wind_speed', [0, 0.0, 3.5], ['fast', None]),
+                ('wind_direction', [0, 360, 360.0, 0.0, 270], [360.5, -1, 'N', None])]
+    if c == 'SkyCondition':
+        leap = bool(spec['date'][2])
+        dts = [{'cls': 'Date', 'args': [2, 28, leap]}, {'cls': 'Date', 'args': [12, 31, leap]},
+               {'cls': 'Date', 'args': [2, 29, True]}, {'cls': 'Date', 'args': [3, 1, not leap]}]
+        out = [('date', dts, [_plain([1, 1]), 'Jan 1', None, {'cls': 'DateTime', 'args': [1, 1, 0, 0, False]}][:3]),
+               ('daylight_savings', [True, False, 0, 1], [])]
+        if spec['kind'] == 'ASHRAEClearSky':
+            out.append(('clearness', [0, 0.0, 1.2, 1, 0.5], [1.25, -0.1, 'clear', None]))
+        if spec['kind'] == 'ASHRAETau':
+            out += [('tau_b', [0, 0.0, 0.4], ['b', None]), ('tau_d', [0, 2.1], ['d', None]),
+                    ('use_2017', [True, False, 0, 1], [])]
+        return out
+    if c == 'DesignDay':
+        db, hum, wind, sky = gen_designday_parts(rng)
+        loc = gen_location(rng)
+        return [('name', ['Day 2', ''], [7, None]),
+                ('day_type', ['SummerDesignDay', 'WinterDesignDay', 'Sunday', 'CustomDay2'], ['Foo', '', None, 'summerdesignday']),
+                ('location', [loc], [db, 'Boston', None]),
+                ('dry_bulb_condition', [db], [hum, None, 5]), ('humidity_condition', [hum], [db, None]),
+                ('wind_condition', [wind], [sky, None]), ('sky_condition', [sky], [wind, None, 'clear']),
+                ('location.latitude', [0, 45.5, -90], [91, 'abc']),
+                ('location.time_zone', [0, 14, None], [15, 'tz']),
+                ('dry_bulb_condition.dry_bulb_range', [0, 8.5], [-1, None]),
+                ('wind_condition.wind_direction', [0, 360], [361, None]),
+                ('humidity_condition.humidity_type', ['Dewpoint', 'Enthalpy'], ['Foo'])]
+    if c == 'DDY':
+        loc = gen_location(rng)
+        return [('location', [loc], ['Boston', None, 5]),
+                ('design_days', [{'specs': [gen_designday(rng, spec['location']) for _ in range(rng.choice([1, 2]))]},
+                                 {'specs': [gen_designday(rng) for _ in range(rng.choice([1, 2]))]},
+                                 {'specs': []}], [5, None, _plain([1, 2])]),
+                ]       # (no in-place edits of ddy.location: the days of a hand-built DDY hold their own, equal
+                #  Location objects, so such an edit makes days and DDY disagree - not a state the writer can express)
+    if c == 'Wea':
+        return [('location', [gen_location(rng)], ['Boston', None, 5]),
+                ('location.time_zone', [0, -12], [15]), ('location.latitude', [0, -45.0], [-91])]
+    return []
+
+
+def gen_history(rng, spec, n_ops=None, refused_first=False):
+    """A history for the instance `spec`: assignments (accepted and refused), in-place operations and reads."""
+    c = spec['cls']
+    pool = _hist_pool(rng, spec)
+    reads = READS.get(c, [])
+    n_ops = n_ops or rng.choice([3, 5, 8, 12])
+    ops = []
+    imm = c == 'Collection' and spec.get('immutable')
+    for i in range(n_ops):
+        r = rng.random()
+        if pool and (r < 0.55 or (refused_first and i == 0)):
+            attr, good, bad = rng.choice(pool)
+            if bad and (rng.random() < 0.4 or (refused_first and i == 0)):
+                v = rng.choice(bad)
+            else:
+                v = rng.choice(good)
+            ops.append({'k': 'set', 'attr': attr, 'v': v})
+        elif c == 'Collection' and r < 0.7:
+            n = len(spec['values'])
+            rr = rng.random()
+            if rr < 0.45:
+                ops.append({'k': 'setitem', 'i': rng.choice([0, -1, n - 1, n, -n - 1, rng.randrange(n)]),
+                            'v': rng.choice([0, 0.0, gen_float(rng)])})
+            else:
+                units = _units_of(spec['header']['dt'])
+                name = rng.choice(['convert_to_unit', 'convert_to_unit', 'convert_to_ip', 'convert_to_si'])
+                o = {'k': 'convert', 'name': name}
+                if name == 'convert_to_unit':
+                    o['unit'] = rng.choice(units + ['furlongs'])
+                ops.append(o)
+        elif reads:
+            ops.append({'k': 'read', 'what': rng.choice(reads)})
+            if rng.random() < 0.3:
+                ops.append(dict(ops[-1]))          # the same question twice
+    return ops
+
+
+def _facts(v, out=None):
+    """Rare classes present in a spec / case: leap years, wrapping periods, sub-hourly steps, ..."""
+    out = out if out is not None else set()
+    if isinstance(v, dict):
+        c = v.get('cls')
+        a = v.get('args')
+        if c == 'AnalysisPeriod' and a:
+            if a[7]:
+                out.add('leap')
+            if (a[0], a[1]) > (a[3], a[4]):
+                out.add('wrapping')
+            if a[6] > 1:
+                out.add('subhourly')
+            if a[2] > a[5]:
+                out.add('overnight')
+        if c == 'DateTime' and a and a[4]:
+            out.add('leap')
+        if c == 'Date' and a and a[2]:
+            out.add('leap')
+        if c == 'Collection':
+            if v.get('immutable'):
+                out.add('immutable')
+            if len(v.get('values', [])) == 1:
+                out.add('single')
+            if v['kind'] == 'HourlyDiscontinuous' and any(d[4] for d in v.get('datetimes', [])):
+                out.add('leap')
+        if c == 'Wea' and v.get('leap'):
+            out.add('leap')
+        if c == 'SkyCondition' and v.get('date') and v['date'][2]:
+            out.add('leap')
+        if c == 'Location' and a and len(a) > 5 and a[5] in (0, 0.0) and a[5] is not None and abs(a[4] or 0) >= 7.5:
+            out.add('tz0_off_meridian')
+        if v.get('k') == 'set':
+            out.add('has_set')
+        for x in v.values():
+            _facts(x, out)
+    elif isinstance(v, (list, tuple)):
+        for x in v:
+            _facts(x, out)
+    return out
+
+
+def _rarity_key(case):
+    f = _facts(case[1])
+    hist_refused_first = case[0] == 'history'
+    return (0 if 'leap' in f else 1, 0 if 'wrapping' in f else 1, 0 if 'subhourly' in f else 1,
+            0 if hist_refused_first else 1)
+
 # fixed corpus: the instances behind every recorded finding / repaired defect, always evaluated
 def _hdr(dt=None, ap=None, meta=None, unit='C'):
     return {'cls': 'Header', 'dt': dt or {'cls': 'DataType', 'type': 'Temperature', 'name': None},
@@ -1049,7 +1871,7 @@ def _oracle_cases(ctx):
     for _ in range(60 * k):
         d = gen_dt(rng)
         for c, a in (('DateTime', d), ('Date', [d[0], d[1], d[4]]), ('Time', [d[2], d[3]])):
-            for x in emit({'cls': c, 'args': a}, ('dict_json', 'unknown_key', 'pickle')):
+            for x in emit({'cls': c, 'args': a}, ('dict_json', 'unknown_key', 'pickle', 'array', 'text')):
                 yield x
     for _ in range(150 * k):
         for x in emit(gen_ap(rng), basic + ('text',)):
@@ -1130,6 +1952,164 @@ def _oracle_cases(ctx):
     for f in epws:
         if os.path.exists(os.path.join(core.REPO, 'tests', 'assets', 'epw', f)):
             yield 'dict_json', {'spec': {'cls': 'EPW', 'file': f}, 'seed': 0}
+    for x in _round3_cases(ctx, rng, k):
+        yield x
+
+
+def _hist_specs(rng, k):
+    """(spec, number of histories) for every class with setters / in-place operations / lazy attributes."""
+    def lpc_named():
+        s = gen_legendpar_cat(rng)
+        s['names'] = ['cat %d' % i for i in range(len(s['domain']) + 1)]
+        return s
+
+    def lp_plain():
+        s = gen_legendpar(rng)
+        s.pop('p3d', None)
+        s.pop('p2d', None)
+        return s
+    out = []
+    for _ in range(20 * k):
+        out.append(gen_location(rng))
+    for _ in range(6 * k):
+        out.append(gen_header(rng))
+        out.append(gen_ap(rng, timestep=rng.choice([1, 1, 2, 3, 4, 60])) if rng.random() < 0.5 else gen_ap_cheap(rng))
+    for _ in range(10 * k):
+        out.append({'cls': 'Color', 'args': gen_color(rng)})
+        d = gen_dt(rng)
+        out.append({'cls': 'DateTime', 'args': d})
+        out.append(gen_datatype(rng))
+    for kind in sorted(COLL_CLASSES):
+        for imm in (False, False, True):
+            for _ in range(2 * k):
+                out.append(gen_collection(rng, kind, imm))
+    for _ in range(16 * k):
+        out.append(gen_colorrange(rng))
+        out.append(lp_plain())
+    for _ in range(10 * k):
+        out.append(lpc_named())
+        out += list(gen_designday_parts(rng))
+        out.append(gen_designday(rng))
+    for _ in range(4 * k):
+        loc = gen_location(rng)
+        out.append({'cls': 'DDY', 'location': loc,
+                    'days': [gen_designday(rng, loc) for _ in range(rng.choice([1, 2]))]})
+    out.append({'cls': 'Wea', 'location': gen_location(rng), 'annual': False,
+                'ap': {'cls': 'AnalysisPeriod', 'args': rng.choice([[2, 28, 0, 3, 1, 23, 1, True], [12, 31, 0, 1, 1, 23, 2, False],
+                                                                     [6, 21, 0, 6, 21, 23, 1, False]])}})
+    return out
+
+
+def _round3_cases(ctx, rng, k):
+    # (d) rare classes as strata of their own
+    for lon in (7.5, -7.5, 22.5, -9.15, 180.0, -180.0, rng.uniform(7.5, 180), -rng.uniform(7.5, 180)):
+        for tz in (0, 0.0):
+            ctx.count('stratum:location_tz0_off_meridian')
+            yield 'dict_json', {'spec': {'cls': 'Location', 'args': ['Lisbon', '-', 'PRT', rng.choice([0, 38.73]), lon, tz,
+                                                                      rng.choice([0, 71]), '085360', 'IWEC']}, 'seed': 0}
+    for args in (['', '', '', 0, 0, 0, 0, '', ''], [None, None, None, 0.0, -0.0, 0.0, -0.0, None, None],
+                 ['a', 'b', 'c', 90, 180, 14, 0, 0, 0], ['a', 'b', 'c', -90, -180, -12, 0, '0', '0']):
+        ctx.count('stratum:location_zero_and_bounds')
+        for op in ('dict_json', 'duplicate', 'text'):
+            yield op, {'spec': {'cls': 'Location', 'args': args}, 'seed': 0}
+    # leap-year data in every consumer of the datetime arrays (non-annual Wea carries `datetimes` arrays)
+    for a in ([2, 27, 0, 3, 2, 23, 1, True], [2, 29, 0, 2, 29, 23, rng.choice([1, 2, 4]), True],
+              [12, 30, 0, 1, 2, 23, 1, True])[:(3 if k > 1 else 1)]:
+        ctx.count('stratum:wea_partial_leap')
+        yield 'dict_json', {'spec': {'cls': 'Wea', 'location': gen_location(rng), 'annual': False,
+                                     'ap': {'cls': 'AnalysisPeriod', 'args': a}}, 'seed': 0}
+    for d in ([2, 29, 12, 30, True], [3, 1, 0, 0, True], [12, 31, 23, 59, True], [1, 1, 0, 0, True], [2, 28, 23, 0, False]):
+        ctx.count('stratum:leap_arrays')
+        for c, a in (('DateTime', d), ('Date', [d[0], d[1], d[4]])):
+            for op in ('array', 'text', 'dict_json', 'pickle'):
+                yield op, {'spec': {'cls': c, 'args': a}, 'seed': 0}
+    for kind in sorted(COLL_CLASSES):          # single-element collections, mutable and immutable
+        for imm in (False, True):
+            c = gen_collection(rng, kind, imm, meta_kind='empty', generic=False)
+            if kind != 'HourlyContinuous':
+                c['values'], c['datetimes'] = c['values'][:1], c['datetimes'][:1]
+                ctx.count('stratum:single_element_collection')
+                for op in ('dict_json', 'duplicate', 'json_file', 'pkl'):
+                    yield op, {'spec': c, 'seed': 0}
+    # (b)(c) histories on one object
+    for spec in _hist_specs(rng, k):
+        ops = gen_history(rng, spec, refused_first=rng.random() < 0.25)
+        if not ops:
+            continue
+        ctx.count('history:' + spec['cls'])
+        ctx.count('history_ops', len(ops))
+        ctx.count('history_sets', sum(1 for o in ops if o['k'] != 'read'))
+        yield 'history', {'spec': spec, 'ops': ops}
+    # (b) several objects of one class read in one process
+    for _ in range(40 * k):
+        r = rng.random()
+        if r < 0.35:
+            t = rng.choice(sorted(_types()))
+            specs = [{'cls': 'DataType', 'type': t, 'name': n} for n in
+                     rng.sample([None, 'my custom name', 'Zone Air Temperature', 'thing 2', 'x'], rng.choice([2, 3]))]
+            if rng.random() < 0.5:
+                u = _units_of(specs[0])[0]
+                specs = [{'cls': 'Header', 'dt': s_, 'unit': u, 'ap': gen_ap_cheap(rng), 'meta': gen_meta(rng)} for s_ in specs]
+        elif r < 0.5:
+            specs = [gen_datatype(rng, generic=True) for _ in range(3)]
+        elif r < 0.65:
+            specs = [gen_location(rng) for _ in range(3)]
+        elif r < 0.8:
+            kind = rng.choice(sorted(COLL_CLASSES))
+            specs = [gen_collection(rng, kind, rng.random() < 0.4) for _ in range(3)]
+        elif r < 0.9:
+            specs = [gen_legendpar(rng) for _ in range(3)]
+        else:
+            specs = [gen_designday(rng) for _ in range(2)] + [gen_colorrange(rng)]
+        if rng.random() < 0.4:
+            # near twins: the same instance with ONE field changed (year kind, timestep, an hour, a number),
+            # read in one process - a memo keyed on a subset of the fields hands out the wrong twin
+            base = gen_ap(rng, leap=False)
+            if base['args'][:2] == [2, 29] or base['args'][3:5] == [2, 29]:
+                continue
+            tw = copy.deepcopy(base)
+            which = rng.choice(['leap', 'timestep', 'st_hour', 'end_hour'])
+            if which == 'leap':
+                tw['args'][7] = True
+            elif which == 'timestep':
+                tw['args'][6] = rng.choice([t_ for t_ in TIMESTEPS if t_ != base['args'][6]])
+            elif which == 'st_hour':
+                tw['args'][2] = (base['args'][2] + 1) % 24
+            else:
+                tw['args'][5] = (base['args'][5] + 23) % 24
+            wrap = rng.choice(['AnalysisPeriod', 'Header', 'Monthly', 'DateTime', 'Location'])
+            ctx.count('seq_twins:' + wrap + ':' + which)
+            if wrap == 'AnalysisPeriod':
+                specs = [base, tw]
+            elif wrap == 'Header':
+                base['args'][2], base['args'][5], tw['args'][2], tw['args'][5] = 0, 23, 0, 23
+                dt = gen_datatype(rng, generic=False)
+                dt['name'] = None
+                u = _units_of(dt)[0]
+                specs = [{'cls': 'Header', 'dt': dt, 'unit': u, 'ap': a_, 'meta': None} for a_ in (base, tw)]
+            elif wrap == 'Monthly':
+                base['args'][2], base['args'][5], tw['args'][2], tw['args'][5] = 0, 23, 0, 23
+                specs = [{'cls': 'Collection', 'kind': rng.choice(['Monthly', 'MonthlyPerHour']), 'immutable': rng.random() < 0.4,
+                          'header': _hdr(ap=a_), 'values': [1.5, 2.5], 'datetimes': None, 'validated': False}
+                         for a_ in (base, tw)]
+                for s_ in specs:
+                    s_['datetimes'] = [2, 3] if specs[0]['kind'] == 'Monthly' else [[2, 0, 0], [3, 23, 30]]
+                    s_['kind'] = specs[0]['kind']
+            elif wrap == 'DateTime':
+                d = gen_dt(rng, leap=False)
+                specs = [{'cls': 'DateTime', 'args': d}, {'cls': 'DateTime', 'args': d[:4] + [True]}]
+            else:
+                l1 = gen_location(rng)
+                l2 = copy.deepcopy(l1)
+                i_ = rng.choice([3, 4, 5, 6])
+                l2['args'][i_] = rng.choice([0, 1.5, -7.25])
+                specs = [l1, l2]
+        if any(root_of('dict_json', {'spec': s_}) != 'none' for s_ in specs):
+            continue
+        order = list(range(len(specs)))
+        rng.shuffle(order)
+        ctx.count('seq:' + specs[0]['cls'])
+        yield 'seq', {'specs': specs, 'order': order}
 
 
 def oracle(ctx):
@@ -1140,8 +2120,12 @@ def oracle(ctx):
 def _oracle(ctx):
     def counted(cases):
         for op, inp in cases:
+            if 'spec' not in inp:
+                ctx.count('spec:' + op)
+                yield op, inp
+                continue
             s = inp['spec']
-            r = root_of(op, inp)
+            r = root_of(op if op != 'history' else 'dict_json', inp)
             if r.startswith('multiple'):
                 ctx.count('skipped:compound-known-limitations')
                 continue
@@ -1154,8 +2138,165 @@ def _oracle(ctx):
             ctx.count('spec:' + s['cls'] + (':' + s['kind'] if s['cls'] == 'Collection' else ''))
             yield op, inp
     del UNCONSTRUCTIBLE[:]
-    run_oracle_cases(ctx, counted(_oracle_cases(ctx)), check_case)
+    pool = []
+
+    def tee(cases):
+        for op, inp in cases:
+            heavy = 'spec' in inp and (inp['spec']['cls'] in ('EPW', 'PsychrometricChart') or
+                                       (inp['spec']['cls'] == 'Wea'))
+            if not heavy and ('spec' not in inp or root_of(op if op != 'history' else 'dict_json', inp) == 'none'):
+                pool.append((op, copy.deepcopy(inp)))
+            yield op, inp
+    run_oracle_cases(ctx, tee(counted(_oracle_cases(ctx))), check_case)
     ctx.count('unconstructible_specs', len(UNCONSTRUCTIBLE))
+    if len(ctx.failures) < 200:
+        _order_runs(ctx, pool)
+    _faithful_first(ctx, pool)
+
+
+def _twin_specs(spec):
+    """Copies of a spec with ONE field of one nested part changed (year kind, timestep, hour, name, number)."""
+    out = []
+
+    def walk(node, path):
+        if isinstance(node, dict):
+            c, a = node.get('cls'), node.get('args')
+            if c == 'AnalysisPeriod' and a and [a[0], a[1]] != [2, 29] and [a[3], a[4]] != [2, 29]:
+                out.append((path + ['args', 7], not a[7]))
+                out.append((path + ['args', 6], 2 if a[6] == 1 else 1))
+                out.append((path + ['args', 2], (a[2] + 1) % 24))
+            if c in ('DateTime', 'Date') and a and a[:2] != [2, 29]:
+                out.append((path + ['args', len(a) - 1], not a[-1]))
+            if c == 'DataType' and 'type' in node:
+                out.append((path + ['name'], None if node.get('name') else 'my custom name'))
+            if c == 'Location' and a and len(a) >= 7:
+                for i_ in (3, 4, 5, 6):
+                    out.append((path + ['args', i_], 1.5 if a[i_] != 1.5 else 0))
+            for k_, v_ in node.items():
+                walk(v_, path + [k_])
+        elif isinstance(node, list):
+            for i_, v_ in enumerate(node):
+                if isinstance(v_, (dict, list)):
+                    walk(v_, path + [i_])
+    walk(spec, [])
+    res = []
+    for path, val in out:
+        t = copy.deepcopy(spec)
+        n = t
+        for p_ in path[:-1]:
+            n = n[p_]
+        n[path[-1]] = val
+        res.append(t)
+    return res
+
+
+def _faithful_first(ctx, pool):
+    """The first unexplained failure becomes the replay.  When it does not fail ALONE in a fresh
+    interpreter it depends on what ran before it in this process: put a failure that replays (an `order`
+    failure, or the shrunk prefix of the stream that leads to it) in front."""
+    unk = [f for f in ctx.failures if _known_hit(f['sig']) is None]
+    if not unk or unk[0]['op'] == 'order':
+        return
+    f0 = unk[0]
+    try:
+        alone = _run_orders([[[f0['op'], f0['input']]]])[0]
+    except Exception:
+        return
+    if alone and alone[0]:
+        return
+    ctx.count('order:in_process_failure_not_reproducible_alone')
+    ords = [f for f in unk if f['op'] == 'order']
+    if not ords and 'spec' in f0['input']:
+        # near twins of the failing instance read first (a memo keyed on a subset of the fields; the
+        # polluting read may have happened in the correspondence phase of this process)
+        tws = _twin_specs(f0['input']['spec'])[:12]
+        cands = [[[f0['op'], dict(f0['input'], spec=t)], [f0['op'], f0['input']]] for t in tws]
+        for i in range(0, len(cands), 4):
+            for order, res in zip(cands[i:i + 4], _run_orders(cands[i:i + 4])):
+                if res and len(res) == 2 and res[1] and not res[0]:
+                    rr = _check_order('order', {'order': order})
+                    if rr:
+                        ctx.failures.insert(0, {'op': 'order', 'input': {'order': order}, 'required': rr['required'],
+                                                'observed': rr['observed'], 'sig': dict(rr['sig'], op='order')})
+                        return
+    if not ords:
+        key = jdump(f0['input'])
+        idx = next((i for i, c in enumerate(pool) if c[0] == f0['op'] and jdump(c[1]) == key), None)
+        if idx is not None:
+            order = [[o, i] for o, i in pool[:idx + 1]]
+            res = _run_orders([order])[0]
+            if res and res[-1]:
+                small = _shrink_order(order, len(order) - 1)
+                rr = _check_order('order', {'order': small})
+                if rr:
+                    ctx.failures.insert(0, {'op': 'order', 'input': {'order': small}, 'required': rr['required'],
+                                            'observed': rr['observed'], 'sig': dict(rr['sig'], op='order')})
+        return
+    ctx.failures.remove(ords[0])
+    ctx.failures.insert(0, ords[0])
+
+
+def _order_runs(ctx, pool):
+    """Process-order independence: a slice of the stream, evaluated in fresh interpreters in different
+    orders (rare classes first in one of them).  A module- or class-level slot filled by the first call
+    shows as a failure that depends on the order; the replay carries the (shrunk) order."""
+    rng = ctx.rng
+    big = ctx.searching or not ctx.quick
+    n = 400 if big else 70
+    special = [c for c in pool if c[0] in ('history', 'seq')]
+    plain = [c for c in pool if c[0] not in ('history', 'seq')]
+    rng.shuffle(special)
+    rng.shuffle(plain)
+    sl = special[:n // 3] + plain[:n - min(len(special), n // 3)]
+    if not sl:
+        return
+    sl = [[op, inp] for op, inp in sl]
+    o_rare = sorted(sl, key=_rarity_key)
+    o_shuf = list(sl)
+    rng.shuffle(o_shuf)
+    o_rev = list(reversed(o_rare))
+    orders = [o_rare, o_shuf]
+    if big:
+        o4 = list(sl)
+        rng.shuffle(o4)
+        orders += [o_rev, o4]
+    results = _run_orders(orders)
+    for order, res in zip(orders, results):
+        ctx.count('order:processes')
+        ctx.count('order:cases', len(order))
+        for j, r in enumerate(res):
+            if not r or _known_hit(r.get('sig') or {}) is not None:
+                continue
+            small = _shrink_order(order, j)
+            rr = _check_order('order', {'order': small}) or {'required': r.get('required'), 'observed': r.get('observed'),
+                                                            'sig': dict(r.get('sig') or {}, in_order=True)}
+            ctx.evaluations += 1
+            ctx.fail('order', {'order': small}, rr['required'], rr['observed'], rr['sig'])
+            break          # one failing order per process is enough for a replay
+
+
+def _fails_same(order):
+    res = _run_orders([order])[0]
+    r = res[-1] if res else None
+    return bool(r) and _known_hit(r.get('sig') or {}) is None
+
+
+def _shrink_order(order, j):
+    """Smallest order (found by bisection over the prefix) in which case j still fails."""
+    target = order[j]
+    if _fails_same([target]):
+        return [target]
+    pre = order[:j]
+    lo, hi = 0, len(pre)           # pre[lo:] + [target] fails for lo = 0
+    while hi - lo > 1:
+        mid = (lo + hi) // 2
+        if _fails_same(pre[mid:] + [target]):
+            lo = mid
+        else:
+            hi = mid
+    if _fails_same([pre[lo], target]):
+        return [pre[lo], target]
+    return pre[lo:] + [target]
 
 
 # ---------------------------------------------------------------------------------------------
@@ -1532,3 +2673,103 @@ def _correspondence(ctx):
                     v['header'] = _mutations(v['header'], rng, 1, strings=False)[0]
                 muts.append(v)
             _model_rt(ctx, 'rtmut_' + tag, tag, muts, reader)
+
+    _hist_correspondence(ctx, L, rng, n)
+
+
+def _hist_correspondence(ctx, L, rng, n):
+    """Histories on ONE object, step by step: the object state machine of Model/Serial/Hist.lean
+    (state = public state, refused operation = unchanged state) against the real object.  After every
+    step: accepted / refused, the dictionary the object writes, and the value of the read."""
+    cases = []
+    specs = [gen_location(rng) for _ in range(120 * n)]
+    for kind in sorted(COLL_CLASSES):
+        for imm in (False, False, True):
+            specs += [gen_collection(rng, kind, imm, generic=rng.random() < 0.2) for _ in range(8 * n)]
+    for spec in specs:
+        c = spec['cls']
+        pool = [p_ for p_ in _hist_pool(rng, spec) if p_[0] not in ('city', 'station_id', 'source')]
+        ops = []
+        for _ in range(rng.choice([2, 4, 7, 10])):
+            r = rng.random()
+            if r < 0.6:
+                attr, good, bad = rng.choice(pool)
+                v = rng.choice(bad) if (bad and rng.random() < 0.4) else rng.choice(good)
+                v = v['plain'] if isinstance(v, dict) and 'plain' in v else v
+                if c == 'Location' and attr == 'elevation' and isinstance(v, float) and v == 0 and math.copysign(1, v) < 0:
+                    v = 0.0
+                ops.append(['set', attr, v])
+            elif r < 0.7 and c == 'Location':
+                a = rng.choice(['city', 'state', 'country', 'station_id', 'source'])
+                ops.append(['set', a, rng.choice(['Lisbon', 'x', '085360'] + ([None] if a in ('station_id', 'source') else []))])
+            elif r < 0.75 and c == 'Collection':
+                k = len(spec['values'])
+                ops.append(['setitem', rng.choice([0, -1, k - 1, k, -k, -k - 1, rng.randrange(k)]),
+                            rng.choice([0, 0.0, 2.5, gen_float(rng)])])
+            else:
+                ops.append(['read', rng.choice(['dict', 'roundtrip', 'copy'])])
+        cases.append((spec, ops))
+    lines, live = [], []
+    for spec, ops in cases:
+        try:
+            d0 = json.loads(json.dumps(build(spec).to_dict()))
+            tag = 'Location' if spec['cls'] == 'Location' else spec['kind'] + ('_imm' if spec.get('immutable') else '')
+            lines.append('hist %s %s %s' % (tag, wire(d0), wire(ops)))
+            live.append((spec, ops, d0))
+        except Exception:
+            ctx.count('spec_not_constructible')
+    outs = ctx.driver().run(lines)
+    for (spec, ops, d0), line, mo in zip(live, lines, outs):
+        rc = reader_class(spec, build(spec))
+        x = rc.from_dict(copy.deepcopy(d0))       # the model starts from the object read from d0 as well
+        real = []
+        deferred = False
+        for o in ops:
+            before = jdump(x.to_dict())
+            acc = True
+            val = None
+            try:
+                if o[0] == 'set':
+                    path = o[1].split('.')
+                    setattr(_target(x, path[:-1]), path[-1], copy.deepcopy(o[2]))
+                elif o[0] == 'setitem':
+                    x[o[1]] = o[2]
+                else:
+                    if o[1] == 'dict':
+                        val = x.to_dict()
+                    elif o[1] == 'roundtrip':
+                        val = rc.from_dict(json.loads(json.dumps(x.to_dict()))).to_dict()
+                    else:
+                        val = x.duplicate().to_dict()
+            except Exception:
+                acc = False
+            if not acc and jdump(x.to_dict()) != before:
+                # a refused operation that changed the object: the property oracle reports it (op `history`,
+                # same generator; recorded findings C07-*-refused-assignment-sticks); the comparison of this
+                # history stops here
+                deferred = True
+                ctx.count('hist_refused_changed:deferred_to_oracle')
+                break
+            # canonical snapshot at once: to_dict hands out the object's own value list
+            real.append(canon([acc, x.to_dict()] + ([val] if (acc and o[0] == 'read') else [])))
+        ctx.compared += 1
+        ctx.count('op:hist_' + spec['cls'])
+        ctx.count('hist_steps', len(real))
+        ctx.case(('hist', line))
+        if mo.startswith('ok '):
+            try:
+                mv = unwire(mo[3:].split(' '))[0][1]
+            except Exception:
+                mv = None
+        else:
+            mv = None
+        if mv is None:
+            ctx.disagree('hist', {'spec': spec, 'ops': ops}, mo[:300], 'real object built')
+            continue
+        for i, st in enumerate(real):
+            want = st
+            if i >= len(mv) or mv[i] != want:
+                ctx.disagree('hist', {'spec': spec, 'ops': ops[:i + 1], 'step': i},
+                             repr(mv[i] if i < len(mv) else None)[:600], repr(want)[:600])
+                break
+
